@@ -30,7 +30,7 @@ TInit ==
     /\ l = 1 /\ cid = "" /\ mon = Mon0 /\ viol = {} /\ ndiv = 0 /\ divs = <<>> /\ dflag = FALSE /\ ncases = 0
 
 ElemOf(ev) ==
-    CASE ev.e = "Features"                  -> [k |-> "Features", f |-> ev.f]
+    CASE ev.e \in {"Features", "ProceedThen"} -> [k |-> ev.e, f |-> ev.f]
       [] ev.e \in {"Challenge", "Challenge2"} -> [k |-> ev.e, good |-> ev.good]
       [] ev.e = "AuthFields"                -> [k |-> "AuthFields", plain |-> ev.plain, digest |-> ev.digest]
       [] ev.e = "BindResult"                -> [k |-> "BindResult", ok |-> ev.ok]
